@@ -20,6 +20,14 @@ PURPOSES = ["Local", "Public"]
 SEALING = {"Local": "Local", "Public": "Secret"}
 ALLOWED_CODES = {"E0277", "E0308", "E0599", "E0616", "E0609", "E0369", "E0282", "E0271"}
 
+FORBIDDEN_KEY_TRAITS = [
+    ("Display", "std::fmt::Display"), ("ToString", "std::string::ToString"), ("Debug", "std::fmt::Debug"),
+    ("LowerHex", "std::fmt::LowerHex"), ("Serialize", "serde::Serialize"), ("Hash", "std::hash::Hash"),
+    ("PartialEq", "PartialEq"), ("PartialOrd", "PartialOrd"), ("AsRefBytes", "AsRef<[u8]>"),
+    ("BorrowBytes", "std::borrow::Borrow<[u8]>"), ("DerefBytes", "std::ops::Deref<Target = [u8]>"),
+    ("Copy", "Copy"), ("Default", "Default"), ("Clone", "Clone"),
+]
+
 def vty(b):
     return f"{b[1]}::core::{b[2]}"
 
@@ -101,6 +109,10 @@ def catalogue():
             add("key-as-bytes", f"AsRef<[u8]> on a {b[0]} {kind} key", kk, "let _: &[u8] = k.as_ref();", False)
             add("key-eq", f"compare {b[0]} {kind} keys with ==", f"{kk}, k2: &Key<{vty(b)}, {kind}>", "let _ = k == k2;", False)
             add("key-id", f"id() of a {b[0]} {kind} key", kk, "let _ = k.id().to_string();", True)
+            # no trait through which key material could leak or be compared / hashed / copied implicitly
+            for tname, bound in FORBIDDEN_KEY_TRAITS:
+                ok = (tname in ("Display", "ToString") and kind == "Public") or (tname == "Clone")
+                add(f"key-trait-{tname}", f"{b[0]} {kind} key used where `{bound}` is required", kk, f"needs::<Key<{vty(b)}, {kind}>, dyn Probe{tname}>(k);" if False else f"fn needs<T: {bound}>(_: &T) {{}} needs(k);", ok)
         # --- unsealed (plaintext) tokens cannot be serialised; sealed ones can
         for purpose in PURPOSES:
             u = f"u: &UnsealedToken<{vty(b)}, {purpose}, M>"
@@ -109,6 +121,8 @@ def catalogue():
             add("unsealed-to-string", f"to_string() an unsealed {b[0]} {purpose} token", u, "let _ = u.to_string();", False)
             add("unsealed-serde", f"serde-serialise an unsealed {b[0]} {purpose} token", u, "let _ = serde_json::to_string(u);", False)
             add("unsealed-claims", f"read claims of an unsealed {b[0]} {purpose} token", u, "let _ = &u.claims.0;", True)
+            for tname, bound in [("Display", "std::fmt::Display"), ("Serialize", "serde::Serialize"), ("ToString", "std::string::ToString")]:
+                add(f"unsealed-trait-{tname}", f"unsealed {b[0]} {purpose} token used where `{bound}` is required", u, f"fn needs<T: {bound}>(_: &T) {{}} needs(u);", False)
             add("sealed-display", f"Display a sealed {b[0]} {purpose} token", t, "let _ = format!(\"{}\", t);", True)
             add("sealed-serde", f"serde-serialise a sealed {b[0]} {purpose} token", t, "let _ = serde_json::to_string(t);", True)
             # C12 accessor clause: the footer of a not-yet-verified token only through unverified_footer()
@@ -143,6 +157,7 @@ paseto-v3-aws-lc = {{ path = "/repo/paseto-v3-aws-lc" }}
 paseto-v4 = {{ path = "/repo/paseto-v4" }}
 paseto-v4-sodium = {{ path = "/repo/paseto-v4-sodium" }}
 serde_json = "1"
+serde = "1"
 '''
 
 def emit(dirname, name, progs):
@@ -257,7 +272,7 @@ def main():
     write_evidence("C18", tier, "exploration", {
         "evaluations": len(progs),
         "distinct_nontrivial": len(rej) + sum(1 for p in acc if p.cls in ("seal", "unseal", "wrap-pie", "seal-key", "unseal-key")),
-        "rule": "generated catalogue: product of (back-end crate of the key) x (back-end crate of the token) x purpose x key kind {Local, Public, Secret, PkePublic, PkeSecret} x operation {seal, unseal, sign/encrypt/verify/decrypt aliases (+_with_aad), wrap_pie (by kind of wrapped and wrapping key), password_wrap, seal-key, unseal-key, Display / to_string / Debug / serde / field access / AsRef / == on keys, Display / to_string / serde on unsealed tokens, private fields of sealed tokens, purpose / kind / version coercions}; each program is one function whose marked statement carries the (mis)use; a type model written from the property text predicts compile / reject; rustc is the ground truth: every predicted-reject program must have an error on its marked line (codes E0277/E0308/E0599/E0616/E0609/E0369), every predicted-compile program (the well-typed twins) must compile. Non-trivial iff predicted reject, or a well-typed twin of a key/token operation; distinct by program text",
+        "rule": "generated catalogue: product of (back-end crate of the key) x (back-end crate of the token) x purpose x key kind {Local, Public, Secret, PkePublic, PkeSecret} x operation {seal, unseal, sign/encrypt/verify/decrypt aliases (+_with_aad), wrap_pie (by kind of wrapped and wrapping key), password_wrap, seal-key, unseal-key, Display / to_string / Debug / serde / field access / AsRef / == on keys, every key kind against a list of trait bounds through which key material could leak or be compared implicitly (Display, ToString, Debug, LowerHex, Serialize, Hash, PartialEq, PartialOrd, AsRef<[u8]>, Borrow<[u8]>, Deref<Target=[u8]>, Copy, Default; Clone allowed), Display / to_string / serde on unsealed tokens, private fields of sealed tokens, purpose / kind / version coercions}; each program is one function whose marked statement carries the (mis)use; a type model written from the property text predicts compile / reject; rustc is the ground truth: every predicted-reject program must have an error on its marked line (codes E0277/E0308/E0599/E0616/E0609/E0369), every predicted-compile program (the well-typed twins) must compile. Non-trivial iff predicted reject, or a well-typed twin of a key/token operation; distinct by program text",
         "samples": samples,
         "class_histogram": classes,
         "programs": len(progs), "predicted_reject": len(rej), "predicted_compile": len(acc),
